@@ -17,7 +17,13 @@
 
 package pilosa
 
-import "github.com/pilosa/pilosa/roaring"
+import (
+	"context"
+	"errors"
+	"sync/atomic"
+
+	"github.com/pilosa/pilosa/roaring"
+)
 
 // Export shims for the verification harness (/verif, property C17). Add-only, tag-guarded.
 
@@ -65,4 +71,39 @@ func VerifC17RowSegments(r *Row) (shards []uint64, cols [][]uint64) {
 		cols = append(cols, r.segments[i].Columns())
 	}
 	return shards, cols
+}
+
+// verifC17FailingClient answers every remote query addressed to one node with an error and
+// passes all others on; the node stays a member of the cluster.
+type verifC17FailingClient struct {
+	base     InternalQueryClient
+	hostPort string
+	calls    *int64
+}
+
+func (c verifC17FailingClient) QueryNode(ctx context.Context, uri *URI, index string, req *QueryRequest) (*QueryResponse, error) {
+	if uri != nil && uri.HostPort() == c.hostPort {
+		atomic.AddInt64(c.calls, 1)
+		return nil, errors.New("verif: injected failure of remote query")
+	}
+	return c.base.QueryNode(ctx, uri, index, req)
+}
+
+// VerifC17FailRemoteQueries makes every remote query that the executor of api's node sends to
+// the node nodeID fail (executor.remoteExec returns an error, which is what mapReduce's
+// failover path reacts to). The returned function removes the injection and reports how many
+// remote queries were failed. Call it while no query is running.
+func VerifC17FailRemoteQueries(api *API, nodeID string) (restore func() int) {
+	e := api.server.executor
+	base := e.client
+	n := api.server.cluster.nodeByID(nodeID)
+	if n == nil {
+		panic("verif: unknown node " + nodeID)
+	}
+	calls := new(int64)
+	e.client = verifC17FailingClient{base: base, hostPort: n.URI.HostPort(), calls: calls}
+	return func() int {
+		e.client = base
+		return int(atomic.LoadInt64(calls))
+	}
 }
